@@ -190,6 +190,9 @@ func c10Run(c *core.Ctx, long bool) {
 		warm = &MRun{Model: model, N: 1, T: wT, Sets: []PSet{ps}, Inputs: [][][]float64{GenInputs(model, c.R, wT, ps)}}
 	}
 	c.Begin(map[string]interface{}{"model": model, "run": run, "warmup_for_hot_states": warm, "chained": chained})
+	if c.R.Bool(0.2) {
+		HostileHistory(c, model, run.Sets)
+	}
 	if long {
 		c.Tag("long-single-call")
 	}
